@@ -86,7 +86,7 @@ func randBytes(n int) []byte {
 }
 
 func runC08(e *Env) {
-	e.R.Rule = "the real authenticateTransport over real loopback QUIC (TLS exporter in play) at the honest end(s) against scripted attackers: same code (control), different codes, rogue dialer / rogue listener sending random bytes, a replay of a proof recorded in another TLS session, reflection, role swap; a relay terminating one TLS session with each honest end and piping the auth stream verbatim; every single-bit flip and every truncation of either 50-byte message applied by the decorator; plus the real acceptExtraConns / dialExtraConns against attackers, recording every stream and byte the honest side opens before authentication; a case counts when a handshake ran to a verdict at an honest end; distinct by strategy instance"
+	e.R.Rule = "the real authenticateTransport over real loopback QUIC (TLS exporter in play) at the honest end(s) against scripted attackers: same code (control), different codes, rogue dialer / rogue listener sending random bytes, a replay of a proof recorded in another TLS session, reflection, role swap; a relay terminating one TLS session with each honest end and piping the auth stream verbatim; every single-bit flip and every truncation of either 50-byte message applied by the decorator; plus the real acceptExtraConns / dialExtraConns against attackers, recording every stream and byte the honest side opens before authentication; plus the PRIMARY connection through the real run functions in child processes (RunSnapshotReceiver/runTransfer, RunSnapshotSender/runICEQUICTransfer) against a fake signaling server and a peer without the join code on every producer of the primary connection (receiver: the connection it accepts and the connection it dials itself; sender: the connection it dials), strategies skip-auth / wrong code / garbage proof / payload sent while authenticating, with a same-code control on each path that must be served; a case counts when a handshake ran to a verdict at an honest end; distinct by strategy instance"
 	lp, err := vk.NewListenerPool(16, 5*time.Second)
 	if err != nil {
 		e.R.Inconcl("listener pool: " + err.Error())
@@ -146,7 +146,7 @@ func runC08(e *Env) {
 		e.R.Eval()
 		e.R.Distinct(fmt.Sprintf("codes/%d:%08x/%d:%08x", len(c.a), vk.HashStr(c.a)&0xffffffff, len(c.b), vk.HashStr(c.b)&0xffffffff))
 		if i < 3 {
-			e.R.Sample(map[string]any{"scenario": "codes", "sender_code": c.a, "receiver_code": c.b, "sender_err": errS(o.SendErr), "receiver_err": errS(o.RecvErr)})
+			e.R.Sample(map[string]any{"scenario": "codes", "sender_code": c.a, "receiver_code": c.b, "sender_err": c08ErrStr(o.SendErr), "receiver_err": c08ErrStr(o.RecvErr)})
 		}
 		if c.a == c.b {
 			note("control")
@@ -232,7 +232,7 @@ func runC08(e *Env) {
 		e.R.Distinct("rogue-dialer/" + s.name)
 		note("rogue_dialer")
 		if i < 2 {
-			e.R.Sample(map[string]any{"scenario": "rogue-dialer", "strategy": s.name, "honest_receiver_err": errS(err)})
+			e.R.Sample(map[string]any{"scenario": "rogue-dialer", "strategy": s.name, "honest_receiver_err": c08ErrStr(err)})
 		}
 		if err == nil {
 			e.R.Violate("rogue-dialer:"+s.name+":accepted", "the honest receiver accepted a dialer that does not hold the join code (strategy "+s.name+")", map[string]any{"strategy": s.name}, nil)
@@ -333,7 +333,7 @@ func runC08(e *Env) {
 		e.R.Distinct(fmt.Sprintf("relay/%d", i%4))
 		note("relay")
 		if i < 1 {
-			e.R.Sample(map[string]any{"scenario": "relay between two TLS sessions", "sender_err": errS(es), "receiver_err": errS(er)})
+			e.R.Sample(map[string]any{"scenario": "relay between two TLS sessions", "sender_err": c08ErrStr(es), "receiver_err": c08ErrStr(er)})
 		}
 		if es == nil || er == nil {
 			e.R.Violate("relay:accepted", fmt.Sprintf("a relay between two TLS sessions piping the auth stream verbatim was accepted: sender err=%v receiver err=%v", es, er), nil, nil)
@@ -391,7 +391,7 @@ func runC08(e *Env) {
 		e.R.Distinct(fmt.Sprintf("alter/%s/%d/%d", a.side, a.bit, a.cut))
 		note("alterations")
 		if i%97 == 0 {
-			e.R.Sample(map[string]any{"scenario": "alteration", "message": a.side, "bit": a.bit, "cut": a.cut, "sender_err": errS(o.SendErr), "receiver_err": errS(o.RecvErr)})
+			e.R.Sample(map[string]any{"scenario": "alteration", "message": a.side, "bit": a.bit, "cut": a.cut, "sender_err": c08ErrStr(o.SendErr), "receiver_err": c08ErrStr(o.RecvErr)})
 		}
 		// the honest end that RECEIVES the altered message must reject
 		if a.side == "m1" && o.RecvErr == nil {
@@ -405,6 +405,8 @@ func runC08(e *Env) {
 	// 7. extra connections: nothing but the auth stream before authentication
 	c08Extra(e, lp, code, note)
 	c08Sequences(e, code, note)
+	// 8. the primary connection through the real run functions of receiver and sender
+	c08Primary(e, note)
 
 	e.R.SetExtra("handshakes_by_strategy", counts)
 	e.R.Require(counts["control"] >= 7 && counts["alterations"] >= e.Pick(90, 800) && counts["relay"] >= 4, "too few handshakes ran")
